@@ -3,7 +3,9 @@ package c20
 import (
 	"context"
 	"fmt"
+	"runtime"
 	"strings"
+	"sync"
 	"testing"
 	"testing/synctest"
 
@@ -18,17 +20,19 @@ type op struct {
 	Kind  string // "end" member i | "add" (Ended: context already ended) | "cancel" pool | "size" | "race" (end member i while adding concurrently)
 	I     int
 	Ended bool
+	Never int // add: 0 = cancellable context; 1..3 = a context that can never end (Background / WithValue(Background) / WithoutCancel)
 }
 
 type poolCase struct {
-	Init   []bool // initial members; true = already ended when passed to NewPool
-	Ops    []op
-	Finish string // "members": end every live member at the end; "cancel": Pool.Cancel
+	Init      []bool // initial members; true = already ended when passed to NewPool
+	InitNever []int  // per initial member: 0 cancellable, 1..3 a context that can never end
+	Ops       []op
+	Finish    string // "members": end every live member at the end; "cancel": Pool.Cancel
 }
 
 func (c poolCase) String() string {
 	var b strings.Builder
-	fmt.Fprintf(&b, "pool{init=%v ops=[", c.Init)
+	fmt.Fprintf(&b, "pool{init=%v initNever=%v ops=[", c.Init, c.InitNever)
 	for i, o := range c.Ops {
 		if i > 0 {
 			b.WriteString(" ")
@@ -37,7 +41,11 @@ func (c poolCase) String() string {
 		case "end":
 			fmt.Fprintf(&b, "end(%d)", o.I)
 		case "add":
-			fmt.Fprintf(&b, "add(ended=%v)", o.Ended)
+			if o.Never > 0 {
+				fmt.Fprintf(&b, "add(never-ending#%d)", o.Never)
+			} else {
+				fmt.Fprintf(&b, "add(ended=%v)", o.Ended)
+			}
 		case "race":
 			fmt.Fprintf(&b, "race(end(%d)||add)", o.I)
 		default:
@@ -53,9 +61,11 @@ type member struct {
 	cancel  context.CancelFunc
 	ended   bool
 	tracked bool
+	never   bool // its Done channel is nil: it cannot end
 }
 
 type outcome struct {
+	neverEnding  bool
 	addWhileLive bool // an Add was accepted while a member was live and all earlier members ended afterwards
 	raced        bool
 	raceAccepted int
@@ -67,6 +77,23 @@ func runPool(t *testing.T, c poolCase) (out outcome, err error) {
 	var errs vk.Errs
 	berr := vk.Bubble(t, c.String(), func() {
 		var ms []*member
+		type ctxKey struct{}
+		newNever := func(kind int) *member {
+			var ctx context.Context
+			switch kind {
+			case 1:
+				ctx = context.Background()
+			case 2:
+				ctx = context.WithValue(context.Background(), ctxKey{}, 1)
+			default:
+				parent, cancel := context.WithCancel(context.Background())
+				cancel() // even an ended parent: WithoutCancel detaches
+				ctx = context.WithoutCancel(parent)
+			}
+			m := &member{ctx: ctx, cancel: func() {}, never: true}
+			ms = append(ms, m)
+			return m
+		}
 		newMember := func(ended bool) *member {
 			ctx, cancel := context.WithCancel(context.Background())
 			m := &member{ctx: ctx, cancel: cancel}
@@ -78,9 +105,16 @@ func runPool(t *testing.T, c poolCase) (out outcome, err error) {
 			return m
 		}
 		var init []context.Context
-		for _, e := range c.Init {
-			m := newMember(e)
-			m.tracked = !e // members already ended at creation are not tracked
+		for i, e := range c.Init {
+			var m *member
+			if i < len(c.InitNever) && c.InitNever[i] > 0 {
+				m = newNever(c.InitNever[i])
+				m.tracked = true
+				out.neverEnding = true
+			} else {
+				m = newMember(e)
+				m.tracked = !e // members already ended at creation are not tracked
+			}
 			init = append(init, m.ctx)
 		}
 		pool := kitctx.NewPool(init...)
@@ -155,6 +189,9 @@ func runPool(t *testing.T, c poolCase) (out outcome, err error) {
 				return
 			}
 			m := ms[i%len(ms)]
+			if m.never {
+				return
+			}
 			m.cancel()
 			m.ended = true
 		}
@@ -164,12 +201,18 @@ func runPool(t *testing.T, c poolCase) (out outcome, err error) {
 			case "end":
 				end(o.I)
 			case "add":
-				m := newMember(o.Ended)
+				var m *member
+				if o.Never > 0 {
+					m = newNever(o.Never)
+					out.neverEnding = true
+				} else {
+					m = newMember(o.Ended)
+				}
 				liveBefore := !done
 				pool.Add(m.ctx)
 				if liveBefore {
 					m.tracked = true // pool live and (settled) some member live: must be accepted
-					if !o.Ended {
+					if !o.Ended || o.Never > 0 {
 						out.addWhileLive = true
 					}
 				}
@@ -193,6 +236,9 @@ func runPool(t *testing.T, c poolCase) (out outcome, err error) {
 				}
 				out.raced = true
 				target := ms[o.I%len(ms)]
+				if target.never {
+					continue
+				}
 				m := newMember(false)
 				sizeBefore := size()
 				fin := make(chan struct{}, 2)
@@ -238,6 +284,14 @@ func runPool(t *testing.T, c poolCase) (out outcome, err error) {
 			for i := range ms {
 				end(i)
 			}
+			if !check("every member that can end has ended") {
+				return
+			}
+			if !modelDone() {
+				// a tracked member that can never end keeps the pool alive: only Cancel ends it
+				pool.Cancel()
+				cancelled = true
+			}
 		}
 		if !check("finish") {
 			return
@@ -266,6 +320,11 @@ func genCase(rt *rapid.T) poolCase {
 	n := rapid.IntRange(0, 4).Draw(rt, "ninit")
 	for i := 0; i < n; i++ {
 		c.Init = append(c.Init, rapid.IntRange(0, 3).Draw(rt, "initEnded") == 0)
+		nv := 0
+		if rapid.IntRange(0, 7).Draw(rt, "initNever") == 0 {
+			nv = rapid.IntRange(1, 3).Draw(rt, "neverKind")
+		}
+		c.InitNever = append(c.InitNever, nv)
 	}
 	nops := rapid.IntRange(0, 10).Draw(rt, "nops")
 	for i := 0; i < nops; i++ {
@@ -273,7 +332,11 @@ func genCase(rt *rapid.T) poolCase {
 		case 0, 1, 2:
 			c.Ops = append(c.Ops, op{Kind: "end", I: rapid.IntRange(0, 7).Draw(rt, "i")})
 		case 3, 4, 5:
-			c.Ops = append(c.Ops, op{Kind: "add", Ended: rapid.IntRange(0, 3).Draw(rt, "ended") == 0})
+			o := op{Kind: "add", Ended: rapid.IntRange(0, 3).Draw(rt, "ended") == 0}
+			if rapid.IntRange(0, 5).Draw(rt, "never") == 0 {
+				o.Never = rapid.IntRange(1, 3).Draw(rt, "neverKind")
+			}
+			c.Ops = append(c.Ops, o)
 		case 6:
 			c.Ops = append(c.Ops, op{Kind: "size"})
 		case 7, 8:
@@ -307,6 +370,9 @@ func TestPoolHistories(t *testing.T) {
 		if out.raceIgnored > 0 {
 			cls = append(cls, "race-last-member.ignored")
 		}
+		if out.neverEnding {
+			cls = append(cls, "never-ending-member")
+		}
 		sec.Case(out.addWhileLive || out.raced, vk.FP(c.String()), cls...)
 		sec.Sample(func() any { return c.String() })
 	})
@@ -317,7 +383,7 @@ func TestPoolHistories(t *testing.T) {
 // end(0..3), add(live), add(ended), cancel, cancel+add, with both finishes.
 func TestPoolSweep(t *testing.T) {
 	sec := vk.Sec("PoolSweep")
-	menu := []op{{Kind: "end", I: 0}, {Kind: "end", I: 1}, {Kind: "end", I: 2}, {Kind: "end", I: 3}, {Kind: "add"}, {Kind: "add", Ended: true}, {Kind: "cancel"}, {Kind: "cancel+add"}}
+	menu := []op{{Kind: "end", I: 0}, {Kind: "end", I: 1}, {Kind: "end", I: 2}, {Kind: "end", I: 3}, {Kind: "add"}, {Kind: "add", Ended: true}, {Kind: "add", Never: 1}, {Kind: "cancel"}, {Kind: "cancel+add"}}
 	depth := vk.Pick(4, 6)
 	idx := 0
 	var inits [][]bool
@@ -356,4 +422,46 @@ func TestPoolSweep(t *testing.T) {
 	}
 	rec(nil)
 	sec.SetExhaustive()
+}
+
+// TestPoolAddCancelRace: Add and Cancel issued from two goroutines at once (real goroutines, many rounds; the order is
+// the Go scheduler's choice). Whatever the order, after both returned the pool is cancelled, tracks nothing (Size 0),
+// and a second Cancel is harmless.
+func TestPoolAddCancelRace(t *testing.T) {
+	sec := vk.Sec("PoolAddCancelRace")
+	rounds := vk.Pick(150000, 3000000) / vk.Shards()
+	for r := 0; r < rounds; r++ {
+		member, cancelMember := context.WithCancel(context.Background())
+		pool := kitctx.NewPool(member)
+		added, cancelAdded := context.WithCancel(context.Background())
+		start := make(chan struct{})
+		var wg sync.WaitGroup
+		wg.Add(2)
+		go func() { defer wg.Done(); <-start; pool.Add(added) }()
+		go func() { defer wg.Done(); <-start; pool.Cancel() }()
+		// a varying number of yields shifts the two against each other
+		for i := 0; i < r%4; i++ {
+			runtime.Gosched()
+		}
+		close(start)
+		wg.Wait()
+		if n := pool.Size(); n != 0 {
+			t.Fatalf("C20 context.Pool violated: after Cancel and a concurrent Add both returned, Size() = %d, want 0 (round %d)", n, r)
+		}
+		func() {
+			defer func() {
+				if p := recover(); p != nil {
+					t.Fatalf("C20 context.Pool violated: a second Cancel after a concurrent Add panicked: %v (round %d)", p, r)
+				}
+			}()
+			pool.Cancel()
+		}()
+		<-pool.Done()
+		cancelMember()
+		cancelAdded()
+		sec.Case(true, vk.FP("add-cancel-race", r%4), "add-vs-cancel")
+	}
+	sec.Sample(func() any {
+		return "NewPool(live); {Add(live) || Cancel()} from two goroutines; then Size()==0, Cancel() again, Done closed"
+	})
 }
